@@ -582,6 +582,14 @@ func lexMain(args []string) int {
 			ms := tlaval.Rec(st["ms"])
 			c.Sig = map[string]string{"st": tlaval.Str(ms["st"]), "exp": tlaval.Str(ms["exp"]), "lx": tlaval.Str(ms["lx"]),
 				"depth": fmt.Sprint(len(tlaval.Seq(ms["stk"])))}
+			if v, ok := st["ins"]; ok && tlaval.Int(v) == 1 {
+				// one offending byte inserted earlier: the signature is that of the point of the error, as for a minimal rejected string
+				c.Sig["st"], c.Sig["exp"], c.Sig["ins"] = "err", tlaval.Str(st["insexp"]), "1"
+				c.Sig["ins_nested"] = "no" // the offending byte lies inside a container that is itself inside a container
+				if tlaval.Int(st["insdepth"]) >= 2 {
+					c.Sig["ins_nested"] = "yes"
+				}
+			}
 			b, _ := json.Marshal(c)
 			cases <- b
 			return nil
